@@ -72,13 +72,24 @@ func VerifC06Contrib() {
 		root      byte
 		resp      chan *altair.SyncCommitteeContribution
 		done      bool
+		cancelled bool
+		cancelCh  chan struct{}
 	}
 	var qs []*q
 	pendingExpire := uint64(0)
 	weak := false
+	cmask := vrt.Param("cancel") // bit i: the query registered by operation i is cancelled right after registering
 	checkQueries := func(successfulStore bool, sa, sb vCon) {
 		for _, x := range qs {
 			if x.done {
+				continue
+			}
+			if x.cancelled {
+				select {
+				case <-x.resp:
+					x.done = true
+				default:
+				}
 				continue
 			}
 			select {
@@ -101,6 +112,12 @@ func VerifC06Contrib() {
 		ops /= 3
 		switch op {
 		case opStore:
+			for _, x := range qs {
+				if x.cancelCh != nil && !x.cancelled {
+					close(x.cancelCh) // Await* closes its cancel channel when it returns
+					x.cancelled = true
+				}
+			}
 			a := vDrawCon(vrt.N("a", i))
 			b := vDrawCon(vrt.N("b", i))
 			vrt.Assume(a.slot == b.slot)
@@ -146,12 +163,16 @@ func VerifC06Contrib() {
 			var root eth2p0.Root
 			root[0] = x.root
 			// AwaitSyncContribution's critical section
+			cancel := make(chan struct{})
 			db.mu.Lock()
-			db.contribQueries = append(db.contribQueries, contribQuery{Key: contribKey{Slot: x.slot, SubcommIdx: x.sub, Root: root}, Response: x.resp, Cancel: make(chan struct{})})
+			db.contribQueries = append(db.contribQueries, contribQuery{Key: contribKey{Slot: x.slot, SubcommIdx: x.sub, Root: root}, Response: x.resp, Cancel: cancel})
 			db.resolveContribQueriesUnsafe()
 			db.mu.Unlock()
 			qs = append(qs, x)
 			checkQueries(true, vCon{}, vCon{})
+			if (cmask>>i)&1 == 1 {
+				x.cancelCh = cancel // this caller gives up (its context ends) just before the next Store
+			}
 		case opExpire:
 			s := uint64(vrt.Byte(vrt.N("xslot", i)))
 			vrt.Assume(s >= 1 && s <= 2 && pendingExpire == 0)
